@@ -193,6 +193,43 @@ def run(ctx):
         verbs = [x.split(b" ")[0].split(b":")[0].strip().upper() for x in Rs[:4]]
         if any(x.count(b"\n") != 1 or x.count(b"\r") != 1 or not x.endswith(b"\r\n") for x in Rs[:4]) or verbs[:4] != [b"EHLO", b"MAIL", b"RCPT", b"DATA"]:
             ubad.append((sc, "URL hello name %r (%s): the peer read %r" % (nm, fl, [x[:40] for x in Rs[:5]])))
+    # custom MAIL / RCPT parameters through the low-level API (valid keywords, any value): each command the peer reads is one line,
+    # the parameter is KEYWORD=xtext and an RFC 3461 decoder gives the value back
+    vals = [b"plain", b"a b", b"a=b", b"x+y", b"cr\rlf\nend", b"\r\nRSET", b"tab\there", b"\x00\x01\x7f", b"caf\xc3\xa9", b"", b"<a@b>", b"+2B", b" lead", b"trail ", b"=" * 30]
+    pscs, pmeta = [], []
+    for v in vals + [bytes(rng.choice(b"ab+= \t\r\n\x00\x7f\x1f!~") for _ in range(rng.randint(1, 14))) for _ in range(20 if ctx.tier == "quick" else 300)]:
+        try:
+            v.decode("utf-8")
+        except UnicodeDecodeError:
+            continue
+        for fl in ("sync", "tokio"):
+            script = [step("none", b"220 hi\r\n"), step("line", b"250-srv\r\n250-8BITMIME\r\n250 SMTPUTF8\r\n"), step("line", b"250 ok\r\n"), step("line", b"250 ok\r\n"), step("line", b"354 go\r\n"),
+                      step("data", b"250 queued\r\n"), step("line", b"221 bye\r\n")]
+            pscs.append({"id": 700000 + len(pscs), "flavor": fl, "timeout_ms": 1500, "server_cap_ms": 2000, "servers": [script],
+                         "ops": [{"op": "connect", "hello": hx(b"c04.test")},
+                                 {"op": "lowsend", "from": hx(b"a@x.org"), "to": [hx(b"b@y.org")], "msg": hx(b"m\r\n"), "mparams": [[hx(b"ENVID"), hx(v)], [hx(b"X-FLAG"), None]], "rparams": [[hx(b"ORCPT"), hx(v)]]},
+                                 {"op": "quit"}]})
+            pmeta.append((v, fl))
+    pbad = []
+    for (v, fl), r, sc in zip(pmeta, _run(pscs), pscs):
+        ctx.count()
+        srv = (r.get("servers") or [None])[0]
+        Rs = events_R(srv) if srv else []
+        why = None
+        if len(Rs) < 4 or any(x.count(b"\n") != 1 or x.count(b"\r") != 1 or not x.endswith(b"\r\n") for x in Rs[:4]):
+            why = "not one line per command"
+        else:
+            mm = re.fullmatch(rb"MAIL FROM:<a@x\.org> ENVID=([^ \r\n]*) X-FLAG\r\n", Rs[1])
+            rm = re.fullmatch(rb"RCPT TO:<b@y\.org> ORCPT=([^ \r\n]*)\r\n", Rs[2])
+            if not mm or not rm:
+                why = "MAIL / RCPT lines do not carry the parameters as KEYWORD=value"
+            elif not xtext_ok(mm.group(1), v) or not xtext_ok(rm.group(1), v):
+                why = "the parameter value is not xtext that decodes to the value"
+        if why:
+            pbad.append((sc, "custom parameter value %r (%s): %s; the peer read %r" % (v, fl, why, [x[:60] for x in Rs[:4]])))
+    ctx.cov["oracle"]["custom_parameters_on_the_wire"] = {"cases": len(pscs), "failures": len(pbad)}
+    if pbad:
+        ctx.violation({"kind": "oracle", "entry": "Mail / Rcpt with custom parameters (low-level API)", "what": pbad[0][1], "scenario": pbad[0][0], "failures": len(pbad)})
     ctx.cov["oracle"]["url_hello_name_one_command_per_line"] = {"cases": len(uscs), "failures": len(ubad)}
     if ubad:
         ctx.violation({"kind": "oracle", "entry": "from_url hello name", "what": ubad[0][1], "scenario": ubad[0][0], "failures": len(ubad)})
